@@ -25,7 +25,7 @@ package absnfs
 //@ loop 1 invariant fragLast(rdata[valof(rm.r)], old(rpos[valof(rm.r)])) ==> (!rm.complete && wlen[rm.fragmentBuf] == 0 && rpos[valof(rm.r)] == old(rpos[valof(rm.r)])) || (rm.complete && wlen[rm.fragmentBuf] == fragLen(rdata[valof(rm.r)], old(rpos[valof(rm.r)])) && rpos[valof(rm.r)] == old(rpos[valof(rm.r)]) + 4 + wlen[rm.fragmentBuf] && forall(j, 0, wlen[rm.fragmentBuf], wdata[rm.fragmentBuf][j] == rdata[valof(rm.r)][old(rpos[valof(rm.r)]) + 4 + j]))
 
 //@ func RecordMarkingWriter.WriteRecord
-//@ prop C13 C14
+//@ prop C13
 //@ requires rm != nil && rm.maxFragment > 0 && rm.maxFragment <= 2147483647
 //@ modifies wlen, wdata, locks
 //@ ensures [frame] appendFrame(valof(rm.w), old(wlen[valof(rm.w)])) && held(rm.mu) == 0
@@ -69,7 +69,7 @@ package absnfs
 //@ ensures [single-fragment-exact] isnil(result1) && fragLast(rdata[valof(c.reader.r)], old(rpos[valof(c.reader.r)])) ==> len(result0) == fragLen(rdata[valof(c.reader.r)], old(rpos[valof(c.reader.r)])) && forall(k, 0, len(result0), result0[k] == rdata[valof(c.reader.r)][old(rpos[valof(c.reader.r)]) + 4 + k], result0[k])
 
 //@ func RecordMarkingConn.WriteRecord
-//@ prop C28 C14
+//@ prop C28
 //@ requires c != nil && c.writer != nil && c.writer.maxFragment > 0 && c.writer.maxFragment <= 2147483647
 //@ modifies wlen, wdata, locks
 //@ ensures [single-frame] isnil(result) && len(data) <= c.writer.maxFragment ==> wlen[valof(c.writer.w)] == old(wlen[valof(c.writer.w)]) + 4 + len(data) && be32(wdata[valof(c.writer.w)], old(wlen[valof(c.writer.w)])) == 2147483648 + len(data) && forall(k, 0, len(data), wdata[valof(c.writer.w)][old(wlen[valof(c.writer.w)]) + 4 + k] == data[k], data[k])
